@@ -1908,4 +1908,4 @@ class AtTimezone(Term):
             interval="INTERVAL " if self.interval else "",
             zone=self.zone,
         )
-        return format_alias_sql(sql, self.alias, ctx)
+        return format_alias_sql(sql, self.alias, ctx) if ctx.with_alias else sql
